@@ -1,0 +1,32 @@
+//go:build verif
+
+package consul
+
+import (
+	"github.com/fabiolb/fabio/config"
+	"github.com/hashicorp/consul/api"
+)
+
+// Verification hooks (build tag verif) for property C14: thin exported wrappers around unexported code so
+// that the correspondence harness in /verif can run the real implementation in-process. No behaviour is
+// changed.
+
+// VerifC14Build runs routecmd.build on one catalog entry.
+func VerifC14Build(svc *api.CatalogService, prefix string, env map[string]string) []string {
+	return routecmd{svc: svc, prefix: prefix, env: env}.build()
+}
+
+// VerifC14ParseTag exposes parseURLPrefixTag.
+func VerifC14ParseTag(s, prefix string, env map[string]string) (route, opts string, ok bool) {
+	return parseURLPrefixTag(s, prefix, env)
+}
+
+// VerifC14MakeConfig runs ServiceMonitor.makeConfig for the given passing checks; the catalog is whatever
+// the Consul HTTP API at cfg.Addr answers (the harness points it at an httptest fake).
+func VerifC14MakeConfig(cfg *config.Consul, dc string, passing []*api.HealthCheck) (string, error) {
+	c, err := api.NewClient(&api.Config{Address: cfg.Addr, Scheme: cfg.Scheme})
+	if err != nil {
+		return "", err
+	}
+	return NewServiceMonitor(c, cfg, dc).makeConfig(passing), nil
+}
